@@ -11,9 +11,13 @@ def main():
     for name, text in gen_all.all_gen_files().items():
         lib.write_if_changed(lib.GEN / name, text)
     lib.coq_prepare()
-    rc, out = lib.sh(["make", "-j12"], cwd=lib.COQ, timeout=3000)
+    # -k: one broken file must not stop the other properties from building; each
+    # check rebuilds what it needs and reports a broken obligation itself
+    rc, out = lib.sh(["make", "-k", "-j12"], cwd=lib.COQ, timeout=3000)
     print(out[-3000:])
-    return rc
+    if rc != 0:
+        print("setup: some Coq files did not build (reported by the checks that need them)")
+    return 0
 
 
 if __name__ == "__main__":
